@@ -439,6 +439,74 @@ func c01PayoutMutants(c *fw.Ctx, s *chain.Sim, p chain.BlockPlan, rp blockReplay
 			break
 		}
 	}
+	// siafund outputs that equal the inputs only MODULO 2^64 ({2^63, 2^63 + v} for v spent): the number of siafunds must
+	// not change, so the block must be rejected (v1 and v2 transactions)
+	{
+		wrap := func(v uint64, addr types.Address) []types.SiafundOutput {
+			return []types.SiafundOutput{{Value: 1 << 63, Address: addr}, {Value: 1<<63 + v, Address: addr}}
+		}
+		judge := func(kind string, mb types.Block, supp consensus.V1BlockSupplement) {
+			s.Seal(&mb, p.Miner)
+			var err error
+			panicked, msg := fw.Recover(func() { err = consensus.ValidateBlock(s.Tip, mb, supp) })
+			res.Count("siafund-wrap-mutant:" + kind)
+			res.Eval(fmt.Sprintf("sfwrap/%s/%d/%d/%s", rp.Mode, rp.Seed, rp.Height, kind), true)
+			if panicked {
+				res.Violate(fw.Violation{Key: "c10-validate-or-apply-panic", What: "panic on a siafund-wrap mutant: " + msg, Replay: rp})
+			} else if err == nil {
+				res.Violate(fw.Violation{Key: "c01-siafunds-created:outputs-wrap-mod-2^64:" + kind, What: "a block whose transaction spends v siafunds and creates outputs {2^63, 2^63+v} (equal to v only modulo 2^64) was accepted: the number of siafunds changes", Replay: rp, Expected: "rejected", Observed: "accepted"})
+			}
+		}
+		if p.Block.V2 != nil {
+			for ti, t := range p.Block.V2.Transactions {
+				if len(t.SiafundInputs) == 0 || len(t.SiafundOutputs) == 0 {
+					continue
+				}
+				var in uint64
+				for _, sfi := range t.SiafundInputs {
+					in += sfi.Parent.SiafundOutput.Value
+				}
+				mb := chain.DeepCopyBlock(p.Block)
+				mb.Timestamp = p.Block.Timestamp
+				mt := &mb.V2.Transactions[ti]
+				mt.SiafundOutputs = wrap(in, t.SiafundOutputs[0].Address)
+				if !s.ResignV2(mt) {
+					continue
+				}
+				mb.V2.Transactions = mb.V2.Transactions[:ti+1] // later transactions may spend the outputs that changed
+				mb.Transactions = nil
+				judge("v2", mb, consensus.V1BlockSupplement{})
+				break
+			}
+		}
+		for ti, t := range p.Block.Transactions {
+			if len(t.SiafundInputs) == 0 || len(t.SiafundOutputs) == 0 || ti >= len(p.Supp.Transactions) {
+				continue
+			}
+			var in uint64
+			for _, e := range p.Supp.Transactions[ti].SiafundInputs {
+				in += e.SiafundOutput.Value
+			}
+			if in == 0 {
+				continue
+			}
+			mb := chain.DeepCopyBlock(p.Block)
+			mb.Timestamp = p.Block.Timestamp
+			mt := &mb.Transactions[ti]
+			mt.SiafundOutputs = wrap(in, t.SiafundOutputs[0].Address)
+			if !s.ResignV1(mt) {
+				continue
+			}
+			mb.Transactions = mb.Transactions[:ti+1]
+			if mb.V2 != nil {
+				mb.V2.Transactions = nil
+			}
+			supp := chain.CopySupp(p.Supp)
+			supp.Transactions = supp.Transactions[:ti+1]
+			judge("v1", mb, supp)
+			break
+		}
+	}
 	if !v1fees.IsZero() {
 		try("without-v1-fees", full.Sub(v1fees))
 	}
